@@ -77,14 +77,14 @@ theorem utf16_rune_parse {m : Nat} (hmax : m ≤ 0x10FFFF) (hns : m < 0xD800 ∨
 (each invalid byte becomes U+FFFD). -/
 theorem utf16_fun_reencode_aux : ∀ (fuel : Nat) (s : Bytes) (off : Nat), s.length ≤ fuel →
     ∃ out, utf16FormatAux fuel s = some out ∧
-      parseFun utf16DecF out = Utf8.reencode (Utf8.rangeDecode.go fuel off s)
-  | 0, [], _, _ => ⟨[], rfl, by simp [parseFun_nil, Utf8.rangeDecode.go, Utf8.reencode]⟩
+      parseFun utf16DecF out = Utf8L.reencode (Utf8.rangeDecode.go fuel off s)
+  | 0, [], _, _ => ⟨[], rfl, by simp [parseFun_nil, Utf8.rangeDecode.go, Utf8L.reencode]⟩
   | 0, _ :: _, _, h => by simp at h
-  | fuel + 1, [], _, _ => ⟨[], rfl, by simp [parseFun_nil, Utf8.rangeDecode.go, Utf8.reencode]⟩
+  | fuel + 1, [], _, _ => ⟨[], rfl, by simp [parseFun_nil, Utf8.rangeDecode.go, Utf8L.reencode]⟩
   | fuel + 1, b :: rest, off, hlen => by
     rw [go_cons]
     rcases hdr : Utf8.decodeRune (b :: rest) with ⟨c, size⟩
-    have hcases := Utf8.decodeRune_cases b rest
+    have hcases := Utf8L.decodeRune_cases b rest
     rw [hdr] at hcases
     simp only [] at hcases ⊢
     have hs1 : 1 ≤ size := by
@@ -97,11 +97,11 @@ theorem utf16_fun_reencode_aux : ∀ (fuel : Nat) (s : Bytes) (off : Nat), s.len
     rw [hsz]
     obtain ⟨r, hr, hpr⟩ := utf16_fun_reencode_aux fuel ((b :: rest).drop size) (off + size)
       (by simp only [List.length_drop, List.length_cons] at hlen ⊢; omega)
-    simp only [Utf8.reencode, List.flatMap_cons]
-    simp only [Utf8.reencode] at hpr
+    simp only [Utf8L.reencode, List.flatMap_cons]
+    simp only [Utf8L.reencode] at hpr
     rw [← hpr]
     by_cases hb : b < 0x80
-    · have hda := Utf8.decodeRune_ascii rest hb
+    · have hda := Utf8L.decodeRune_ascii rest hb
       rw [hdr] at hda
       simp only [Prod.mk.injEq] at hda
       obtain ⟨rfl, rfl⟩ := hda
@@ -124,12 +124,12 @@ theorem utf16_fun_reencode_aux : ∀ (fuel : Nat) (s : Bytes) (off : Nat), s.len
 
 theorem utf16_fun_reencode (s : Bytes) :
     ∃ out, utf16Format s = some out ∧ parseFun utf16DecF out = Utf8.encode (Utf8.runes s) := by
-  rw [Utf8.encode_runes]
+  rw [Utf8L.encode_runes]
   exact utf16_fun_reencode_aux s.length s 0 (Nat.le_refl _)
 
 theorem utf16_fun_roundtrip (s : Bytes) (hv : Utf8.valid s = true) :
     ∃ out, utf16Format s = some out ∧ parseFun utf16DecF out = s := by
   obtain ⟨out, h1, h2⟩ := utf16_fun_reencode s
-  exact ⟨out, h1, by rw [h2, Utf8.encode_runes_valid s hv]⟩
+  exact ⟨out, h1, by rw [h2, Utf8L.encode_runes_valid s hv]⟩
 
 end Golib.C07
